@@ -90,6 +90,7 @@ func (ic *importClient) Send(ctx context.Context, s capnp.Send) (*capnp.Answer, 
 		return capnp.ErrorAnswer(s.Method, disconnected("connection closed")), func() {}
 	}
 	defer ic.c.tasks.Done()
+	defer verifSync(ic.c, "task-done")
 	ent := ic.c.imports[ic.id]
 	if ent == nil || ic.generation != ent.generation {
 		ic.c.mu.Unlock()
@@ -145,8 +146,10 @@ func (ic *importClient) Send(ctx context.Context, s capnp.Send) (*capnp.Answer, 
 		return capnp.ErrorAnswer(s.Method, errorf("send message: %v", err)), func() {}
 	}
 	q.c.tasks.Add(1)
+	verifSync(q.c, "task-add")
 	go func() {
 		defer q.c.tasks.Done()
+		defer verifSync(q.c, "task-done")
 		q.handleCancel(ctx)
 	}()
 	ic.c.mu.Unlock()
@@ -263,6 +266,7 @@ func (ic *importClient) Shutdown() {
 		return
 	}
 	defer ic.c.tasks.Done()
+	defer verifSync(ic.c, "task-done")
 	ent := ic.c.imports[ic.id]
 	if ic.generation != ent.generation {
 		// A new reference was added concurrently with the Shutdown.  See
